@@ -825,6 +825,14 @@ class IpWorld:
         self.pairing = self.controller.load_pairing("alias", dict(self.ids.pairing_data))
         if preload_accessories:
             self.pairing.restore_accessories_state(json.loads(json.dumps(self.db)), 1, None)
+        limit = self.profile.get("concurrency_limit")
+        if limit and limit > 1:
+            # tuning knob of HomeKitConnection (constructor argument concurrency_limit, default 1) varied per run:
+            # several requests may then be outstanding on one connection (HTTP/1.1 pipelining, answered in order)
+            import asyncio as _asyncio
+
+            self.pairing.connection._concurrency_limit = _asyncio.Semaphore(limit)
+            self.ctx.probe("concurrency_limit_gt_1")
         return self.pairing
 
     def add_listener(self, name: str, raises: bool = False):
